@@ -215,3 +215,31 @@ Example C03_nonvacuous :
   c_pc (s_cs _ s 1) = CDone /\ c_closes (s_cs _ s 1) = 1 /\ map p_id (c_out (s_cs _ s 1)) = [1%Z] /\
   s_count _ s = 0%Z.
 Proof. intro s. split; [exact nonvac_quiescent|]. vm_compute. repeat split. Qed.
+
+(* ---- 8. the oracle of the check -------------------------------------------------------------
+   [ok_C03] (Model/LtsOracle.v) is the boolean function that bin/check applies to
+   (case, observation of the real media.Stream after the case's schedule).  It reads the wire
+   observation [( (cons_0 … cons_{n-1}) count ok pp todo kp )] and demands: the counter is not
+   negative (C03_count_nonneg); Consumer.Close at most once (C03_closed_at_most_once); a consumer
+   whose attach has returned and whose goroutine and stopper are at rest is released once the
+   stream is closed (C03_released_after_close_local) or once its stopper has run
+   (C03_stopped_is_released_local); the counter equals the number of registered consumers when no
+   removal is in flight (C03_count_registered_when_settled).  The model passes it on every case: *)
+From V Require Import LtsOracle LtsOracleProofs.
+
+Theorem C03_model_passes : forall c : lcase,
+  l_var c = fixed -> ok_C03 c (obs_of_state (l_n c) (lrun c)) = true.
+Proof. exact LtsOracleProofs.C03_model_passes. Qed.
+Print Assumptions C03_model_passes.
+
+(* [obs_of_state] is what the decoder [dec_obs] of the oracle reads off the wire encoding … *)
+Theorem C03_oracle_decodes_the_wire : forall n (s : lstate),
+  dec_obs (enc_state n s) = obs_of_state n s.
+Proof. exact dec_enc_obs. Qed.
+Print Assumptions C03_oracle_decodes_the_wire.
+
+(* … so the extracted oracle answers 1 on (case, the extracted model's output for the case) *)
+Theorem C03_model_passes_on_the_wire : forall v,
+  l_var (dec_lcase v) = fixed -> ok_C03 (dec_lcase v) (dec_obs (lts_run v)) = true.
+Proof. exact (fun v H => proj1 (wire_model_passes v H)). Qed.
+Print Assumptions C03_model_passes_on_the_wire.
